@@ -6,7 +6,7 @@
 //! exit; SimNet injects faults. Everything observable is appended to one totally ordered log which
 //! the oracles examine at the horizon. A final phase (after all faults have stopped and every
 //! time-out the code owns has had time to fire) re-dials every disconnected pair.
-use crate::node::{self, base_config, full_addr, gen_node_knobs, listen_addr, node_ip, peer_id, short, with_p2p};
+use crate::node::{self, base_config, full_addr, gen_node_knobs, has_ws, listen_addr, node_ip, peer_id, short, with_p2p, ws_full_addr};
 use crate::nodesim;
 use crate::rng::Rng;
 use crate::runner::{Budget, Describe, Prop, Tier};
@@ -402,11 +402,31 @@ impl Prop for ConnProp {
         if rng.chance(limit_p, 5) {
             knobs["max_in"] = json!(rng.range(1, 3));
         }
+        // second transport (independent stream of the seed): in a third of the runs some nodes also
+        // run the WebSocket transport on SimNet; peers are then known by a TCP and a WebSocket
+        // address (dial by peer id opens on both transports at once) and some address dials use
+        // the WebSocket address
+        let mut wsr = Rng::fork(seed, "ws-knobs");
+        let mut ops = ops;
+        let mut ws_run = false;
+        if wsr.chance(1, 3) {
+            let mut wsn: Vec<u64> = (1..=n as u64).filter(|_| wsr.chance(2, 3)).collect();
+            if wsn.is_empty() {
+                wsn.push(1 + wsr.below(n as u64));
+            }
+            knobs["ws_nodes"] = json!(wsn);
+            knobs["ws_known"] = json!(wsr.below(1 << 16));
+            ws_run = true;
+            for o in ops.iter_mut() {
+                if o["op"] == "dial_addr" && o["shape"] == "good" && wsr.chance(1, 2) {
+                    o["shape"] = json!("good_ws");
+                }
+            }
+        }
         // which nodes lack probe b (unsupported-protocol substream failures)
         let lacking: Vec<u64> = (1..=n as u64).filter(|_| rng.chance(1, 5)).collect();
         let half_close = if rng.chance(1, 4) { *rng.pick(&[1u64, 2]) } else { 0 };
         let inbound_hold = *rng.pick(&[50u64, 50, 50, 2_000, 12_000]);
-        let mut ops = ops;
         let mut faults = faults;
         if self.id == "C08" && rng.chance(1, 8) {
             // a peer that stops answering (partition = stalled delivery) while one protocol opens
@@ -418,7 +438,7 @@ impl Prop for ConnProp {
             ops.push(json!({"at_ms": t0 + 50 + rng.below(200), "op": "open_burst", "node": a, "to": b, "proto": rng.below(2), "count": rng.range(200, 420)}));
             ops.sort_by_key(|o| o["at_ms"].as_u64().unwrap_or(0));
         }
-        json!({
+        let mut case = json!({
             "property": self.id,
             "seed": seed,
             "nodes": n,
@@ -430,7 +450,14 @@ impl Prop for ConnProp {
             "inbound_hold_ms": inbound_hold,
             "ops": ops,
             "faults": faults,
-        })
+        });
+        // tungstenite treats an HTTP upgrade request that arrives in more than 64 reads of fewer
+        // than 128 bytes on average as an attack (`AttackAttempt`): with the WebSocket transport
+        // in the run the network does not fragment below 64 bytes per read
+        if ws_run && case["net"]["max_chunk"].as_u64().unwrap_or(4096) < 64 {
+            case["net"]["max_chunk"] = json!(64);
+        }
+        case
     }
 
     fn systematic(&self, tier: Tier) -> Vec<Value> {
@@ -499,6 +526,7 @@ impl Prop for ConnProp {
         let horizon_ms = t_final + settle;
         let max_in = knobs["max_in"].as_u64();
         let max_out = knobs["max_out"].as_u64();
+        let ws_nodes: BTreeSet<usize> = knobs["ws_nodes"].as_array().map(|a| a.iter().filter_map(|x| x.as_u64()).map(|x| x as usize).collect()).unwrap_or_default();
         let no_probe_b: BTreeSet<usize> = case["no_probe_b"].as_array().map(|a| a.iter().filter_map(|x| x.as_u64()).map(|x| x as usize).collect()).unwrap_or_default();
         run_sim(seed, sched, Duration::from_millis(horizon_ms), 4_000_000, verbose, move |handle: Handle| {
             let net = SimNet::new(handle.clone(), seed, NetKnobs::from_json(&case["net"]));
@@ -533,7 +561,23 @@ impl Prop for ConnProp {
                     if j != i {
                         let a = full_addr(seed, j);
                         known.lock().unwrap().entry((i, j)).or_default().insert(a.to_string());
-                        l.add_known_address(peer_id(seed, j), std::iter::once(a));
+                        // WebSocket address of the peer: of a peer that listens there, and (seeded)
+                        // of the refusing / black-holing ghosts; before or after the TCP address
+                        let bits = knobs["ws_known"].as_u64().unwrap_or(0) >> ((i * 5 + j) % 14);
+                        let give_ws = knobs["ws_nodes"].is_array() && (has_ws(&knobs, j) || j > n) && bits & 1 == 1;
+                        if give_ws {
+                            let w = ws_full_addr(seed, j);
+                            known.lock().unwrap().entry((i, j)).or_default().insert(w.to_string());
+                            if bits & 2 == 2 {
+                                l.add_known_address(peer_id(seed, j), std::iter::once(w));
+                                l.add_known_address(peer_id(seed, j), std::iter::once(a));
+                            } else {
+                                l.add_known_address(peer_id(seed, j), vec![a, w].into_iter());
+                            }
+                            handle.probe("ws-address-known");
+                        } else {
+                            l.add_known_address(peer_id(seed, j), std::iter::once(a));
+                        }
                     }
                 }
                 node_tx.push(Some(spawn_app_loop(&handle, log.clone(), seed, total, i, l)));
@@ -635,7 +679,7 @@ impl Prop for ConnProp {
                                 }
                                 let shape = o["shape"].as_str().unwrap_or("good");
                                 let g = o["ghost"].as_u64().unwrap_or((n + 3) as u64) as usize;
-                                let (addr, peer) = if shape == "good" { (full_addr(seed, j), Some(j)) } else { weird_addr(seed, shape, j.min(n), g.clamp(1, total)) };
+                                let (addr, peer) = if shape == "good" { (full_addr(seed, j), Some(j)) } else if shape == "good_ws" { (ws_full_addr(seed, j), Some(j)) } else { weird_addr(seed, shape, j.min(n), g.clamp(1, total)) };
                                 if let Some(p) = peer {
                                     known.lock().unwrap().entry((i, p)).or_default().insert(addr.to_string());
                                 }
@@ -728,7 +772,7 @@ impl Prop for ConnProp {
                     let s = f["at_ms"].as_u64().unwrap_or(0) * 1_000_000;
                     (f["a"].as_u64().unwrap_or(0) as usize, f["b"].as_u64().unwrap_or(0) as usize, s, s + f["heal_after_ms"].as_u64().unwrap_or(0) * 1_000_000)
                 }).collect();
-                let ctx = Ctx { log: &log, dead: &dead, table: &table, known: &known, n, total, seed, end_ns, max_in, max_out, sub_open_ms: sub_open, t_final_ns: t_final * 1_000_000, any_net_fault: !faults.is_empty(), no_probe_b: &no_probe_b, freezes: &freezes, partitions: &partitions };
+                let ctx = Ctx { log: &log, dead: &dead, table: &table, known: &known, n, total, seed, end_ns, max_in, max_out, sub_open_ms: sub_open, t_final_ns: t_final * 1_000_000, any_net_fault: !faults.is_empty(), no_probe_b: &no_probe_b, ws_nodes: &ws_nodes, freezes: &freezes, partitions: &partitions };
                 let vs = ctx.check();
                 for (class, detail) in vs.iter() {
                     h.probe(&format!("oracle-hit:{}", class.split(':').next().unwrap_or("")));
@@ -764,6 +808,8 @@ struct Ctx<'a> {
     sub_open_ms: u64,
     t_final_ns: u64,
     no_probe_b: &'a BTreeSet<usize>,
+    /// nodes that also listen on the WebSocket transport
+    ws_nodes: &'a BTreeSet<usize>,
     /// process stalls of the plan: (node, start ns, end ns)
     freezes: &'a [(usize, u64, u64)],
     /// partitions of the plan: (host a, host b, start ns, heal ns)
@@ -1080,7 +1126,7 @@ impl<'a> Ctx<'a> {
                                 // a dial tries the best-scored addresses only (as many as there is
                                 // free capacity): the success of the re-dial is only asserted when
                                 // the peer's real address is the only one this node was ever given
-                                let only_real = self.known.get(&(i, p)).is_some_and(|s| s.len() == 1);
+                                let only_real = self.known.get(&(i, p)).is_some_and(|s| s.iter().all(|a| *a == full_addr(self.seed, p).to_string() || (self.ws_nodes.contains(&p) && *a == ws_full_addr(self.seed, p).to_string())));
                                 if !established && failed && cap_ok && only_real && self.alive(p) {
                                     v.push(("c06:final-dial-refused".into(), format!("node {i}: dial(n{p}) at {:.3}s on a healthy network with free capacity ended in a dial failure", r.t as f64 / 1e9)));
                                     let exited_any = self.log.iter().any(|q| matches!(q.k, K::PExit { .. }) && (q.node == i || q.node == p));
@@ -1168,7 +1214,7 @@ impl<'a> Ctx<'a> {
             if let K::AppEstablished { peer, listener, addr } = &r.k {
                 let cand = if *listener {
                     // the listener endpoint carries the remote socket address, unique per connection
-                    self.table.iter().find(|c| c.2.ip() == node_ip(i) && format!("/ip4/{}/tcp/{}", c.1.ip(), c.1.port()) == *addr && !used.contains(&c.0))
+                    self.table.iter().find(|c| c.2.ip() == node_ip(i) && (format!("/ip4/{}/tcp/{}", c.1.ip(), c.1.port()) == *addr || addr.starts_with(&format!("/ip4/{}/tcp/{}/ws", c.1.ip(), c.1.port()))) && !used.contains(&c.0))
                 } else {
                     // latest connection from this node to that peer created before the event
                     self.table.iter().filter(|c| c.1.ip() == node_ip(i) && c.2.ip() == node_ip(*peer) && c.4 <= r.t && !used.contains(&c.0)).last()
